@@ -25,6 +25,9 @@ func coreC08(tier string) []RunSpec {
 			out = append(out, RunSpec{Profile: "core:path:" + wwKinds[pi], Params: map[string]int{"path": pi, "legacy": legacy}})
 		}
 		out = append(out, RunSpec{Profile: "core:path:restore", Params: map[string]int{"path": 100, "legacy": legacy}})
+		for k := 0; k < 6 && legacy == 0; k++ {
+			out = append(out, RunSpec{Profile: "core:restore-then-continue", Params: map[string]int{"restcont": 1, "k": k, "legacy": legacy}})
+		}
 		for k := 1; k <= 4; k++ {
 			for fk := 0; fk < 2; fk++ {
 				out = append(out, RunSpec{Profile: "core:melt-retry-after-lost-message", Params: map[string]int{"meltretry": 1, "k": k, "fk": fk, "legacy": legacy}})
@@ -208,6 +211,57 @@ func runC08(rc *RunCtx) {
 		ww.StepMint()
 	}
 	scanned := ww.ScanRequests(0)
+	if rc.P("restcont", 0) == 1 {
+		// a wallet restored from its seed (its proofs carry no DLEQ) continues: it mints (proofs
+		// with DLEQ) and then spends old and new proofs together in melts and swapping sends
+		ww.step = 0
+		w := ww.Wallets[0]
+		ww.restoreWallet(w, true, "restore-then-continue")
+		rw := ww.Wallets[0]
+		mint := mintNameOfURL(ww.node(rw).Mint)
+		mintInto := func(amount uint64) {
+			ww.op("w.mint")
+			ww.W.WalletOp(rw, ww.name("mint."+rw), nil, func(wl *wallet.Wallet) {
+				q, e := wl.RequestMint(amount, ww.mintURL(mint))
+				if e != nil {
+					return
+				}
+				if mq := ww.W.Book.Mint(mint).MQ[q.Quote]; mq != nil {
+					ww.W.LN.PayExternal(mq.Hash)
+				}
+				wl.MintTokens(q.Quote)
+			})
+		}
+		for round := 0; round < 3; round++ {
+			ww.step++
+			mintInto(uint64(37 + 20*round + rc.P("k", 0)))
+			bal := ww.balanceAt(rw, mint)
+			if bal < 16 {
+				continue
+			}
+			// a melt of most of the balance: old (no DLEQ) and new (DLEQ) proofs in one request
+			inv := ww.W.LN.NewExternalInvoice((bal - bal/4) * 1000)
+			ww.op("w.melt")
+			ww.W.WalletOp(rw, ww.name("melt."+rw), nil, func(wl *wallet.Wallet) {
+				if q, e := wl.RequestMeltQuote(inv.Bolt11, ww.mintURL(mint)); e == nil {
+					wl.Melt(q.Quote)
+				}
+			})
+			scanned = ww.ScanRequests(scanned)
+			// and a send that has to swap
+			if rest := ww.balanceAt(rw, mint); rest > 3 {
+				ww.op("w.send fees=true")
+				ww.W.WalletOp(rw, ww.name("send."+rw), nil, func(wl *wallet.Wallet) { wl.Send(rest-rest/3-1, ww.mintURL(mint), true) })
+				scanned = ww.ScanRequests(scanned)
+			}
+		}
+		ww.Settle()
+		ww.ScanRequests(scanned)
+		ww.positiveControl()
+		rc.S.Probe("c08_restore_then_continue")
+		rc.Nontrivial = rc.S.Stats["c08_spend_request_scanned"] > 0
+		return
+	}
 	if rc.P("meltretry", 0) == 1 {
 		w := ww.Wallets[0]
 		ww.step = 0
